@@ -157,6 +157,20 @@ pub fn begin_case(case: usize, limit: usize) {
     PEAK.store(LIVE.load(Relaxed), Relaxed);
 }
 
+/// bytes handed out by the C allocator (sees allocations that bypass the Rust global allocator,
+/// e.g. zlib-rs' own use of `System`); 0 where not available
+pub fn malloc_in_use() -> usize {
+    #[cfg(any(miri, verif_asan))]
+    {
+        0
+    }
+    #[cfg(not(any(miri, verif_asan)))]
+    {
+        let m = unsafe { libc::mallinfo2() };
+        m.uordblks + m.hblkhd
+    }
+}
+
 pub fn cpu_us() -> u64 {
     #[cfg(miri)]
     {
